@@ -7,40 +7,43 @@
    command sequences with strictly increasing positive raft timestamps, both expiry policies
    (compact = true / false).  The implementation is tied to BOTH models on every check run (three-way
    comparison impl / Map / Spec over all five types). *)
-From ZV Require Import Common.Bytes Data.Consts Data.Base Data.MapEq Data.Map Data.MapK Data.Spec Data.SpecL Data.SpecK Data.Run
-  Data.RepColl Data.RepState Data.RefHS Data.RefCmd Data.RefK Data.C08Proofs.
+From ZV Require Import Common.Bytes Data.Consts Data.Base Data.MapEq Data.Map Data.MapL Data.MapK Data.Spec Data.SpecL Data.SpecK Data.Run
+  Data.RepColl Data.RepState Data.RefHS Data.RefCmd Data.RefK Data.RefL Data.C08Proofs.
 Open Scope Z_scope.
 
 (* the full statement: every command of the documented set *)
 Definition C08_full : Prop := forall (compact : bool) (cs : list (Z * cmd)),
   increasing 0 cs -> map_trace compact cs m_init = spec_trace cs s_init.
 
-(* (1) PARTIAL: proved for sequences made of the string (KV), hash and set commands — writes SET SETNX GETSET
-   INCR INCRBY APPEND SETRANGE DEL, HSET HSETNX HMSET HDEL HINCRBY HCLEAR, SADD SREM SPOP SCLEAR and all their reads
-   (GET MGET GETRANGE STRLEN EXISTS, HGET HMGET HEXISTS HLEN HGETALL HKEYS HVALS HKEYEXIST, SCARD SISMEMBER
-   SMEMBERS SRANDMEMBER SKEYEXIST): equal replies command by command.
-   Missing for the full statement: the sorted-set commands and the list commands (for those the
-   representation invariant of C09 is proved and the three-way comparison runs on every check, but not the
-   refinement), and SETRANGE with a negative offset (a Go slice panic, outside the generated inputs). *)
-Theorem C08_kv_hash_set_partial : forall (compact : bool) (cs : list (Z * cmd)),
-  increasing 0 cs -> forallb (fun tc => covered (snd tc)) cs = true ->
+(* (1) PARTIAL: proved for sequences made of the string (KV), hash, set and list commands — writes SET SETNX
+   GETSET INCR INCRBY APPEND SETRANGE DEL, HSET HSETNX HMSET HDEL HINCRBY HCLEAR, SADD SREM SPOP SCLEAR, LPUSH RPUSH
+   LPOP RPOP LSET LTRIM LCLEAR and all their reads (GET MGET GETRANGE STRLEN EXISTS, HGET HMGET HEXISTS HLEN HGETALL
+   HKEYS HVALS HKEYEXIST, SCARD SISMEMBER SMEMBERS SRANDMEMBER SKEYEXIST, LLEN LINDEX LRANGE LKEYEXIST): equal
+   replies command by command.  [adm_run]: no LPUSH/RPUSH may use up the 2^61 sequence numbers on its side of a list
+   (then rockredis answers errListSeq, which Redis has no counterpart for).
+   Missing for the full statement: the sorted-set commands (for those the representation invariant of C09 is
+   proved and the three-way comparison runs on every check, but not the refinement), and SETRANGE with a negative
+   offset (a Go slice panic, outside the generated inputs). *)
+Theorem C08_kv_hash_set_list_partial : forall (compact : bool) (cs : list (Z * cmd)),
+  increasing 0 cs -> forallb (fun tc => covered (snd tc)) cs = true -> adm_run compact cs m_init ->
   map_trace compact cs m_init = spec_trace cs s_init.
 Proof. exact khs_all_sequences. Qed.
-Print Assumptions C08_kv_hash_set_partial.
+Print Assumptions C08_kv_hash_set_list_partial.
 
 (* (2) the resulting data: after such a sequence every stored hash / set record abstracts (as a finite map,
-   current generation only) to the Spec value at the same key, and the string stores are equal *)
-Theorem C08_kv_hash_set_data_partial : forall (compact : bool) (cs : list (Z * cmd)),
-  increasing 0 cs -> forallb (fun tc => covered (snd tc)) cs = true ->
+   current generation only) to the Spec value at the same key, every list record abstracts (values at the
+   sequences head..tail) to the Spec list, and the string stores are equal *)
+Theorem C08_kv_hash_set_list_data_partial : forall (compact : bool) (cs : list (Z * cmd)),
+  increasing 0 cs -> forallb (fun tc => covered (snd tc)) cs = true -> adm_run compact cs m_init ->
   simS compact (last_ts 0 cs) (map_run compact cs m_init) (spec_run cs s_init).
 Proof.
-  intros compact cs I Cv. exact (proj2 (trace_ref compact cs 0 m_init s_init (simS_init compact) (Z.le_refl 0) I Cv)).
+  intros compact cs I Cv Ad. exact (proj2 (trace_ref compact cs 0 m_init s_init (simS_init compact) (Z.le_refl 0) I Cv Ad)).
 Qed.
-Print Assumptions C08_kv_hash_set_data_partial.
+Print Assumptions C08_kv_hash_set_list_data_partial.
 
 (* (3) one step, from any related pair of states (incl. failing commands) *)
 Theorem C08_step_partial : forall (compact : bool) (clock ts : Z) (c : cmd) (ms : mstate) (ss : sstate),
-  simS compact clock ms ss -> 0 <= clock < ts -> covered c = true ->
+  simS compact clock ms ss -> 0 <= clock < ts -> covered c = true -> admissible ms c ->
   snd (map_step compact ts c ms) = snd (spec_step c ss) /\
   simS compact ts (fst (map_step compact ts c ms)) (fst (spec_step c ss)).
 Proof. exact step_ref. Qed.
@@ -97,10 +100,12 @@ Definition ex_cs8 : list (Z * cmd) :=
     (5, CK (KCset kk b9));
     (6, CK (KCincrby kk 1));
     (7, CHdel kk [bb; bb]);
-    (8, QHgetall kk); (9, QSmembers kk); (10, QK (KQget kk)) ].
-Example C08_ex_covered : increasing 0 ex_cs8 /\ forallb (fun tc => covered (snd tc)) ex_cs8 = true.
-Proof. split; [cbn; repeat split; reflexivity|reflexivity]. Qed.
+    (8, CL kk (LCpush false [ba; bb; b1]));
+    (9, CL kk (LCtrim (-2) 9223372036854775807));
+    (10, QHgetall kk); (11, QSmembers kk); (12, QK (KQget kk)); (13, QL kk (LQrange 0 (-1))) ].
+Example C08_ex_covered : increasing 0 ex_cs8 /\ forallb (fun tc => covered (snd tc)) ex_cs8 = true /\ adm_run false ex_cs8 m_init.
+Proof. split; [cbn; repeat split; reflexivity|split; [reflexivity|]]. vm_compute. repeat split; reflexivity. Qed.
 Example C08_ex_trace : spec_trace ex_cs8 s_init =
-  [RNil; RInt 10; RInt 2; RInt 1; RInt 1; RInt 10; RInt 1;
-   RArr [RBulk ba; RBulk [49; 48]%N]; RArr [RBulk bb]; RBulk [49; 48]%N].
+  [RNil; RInt 10; RInt 2; RInt 1; RInt 1; RInt 10; RInt 1; RInt 3; RNil;
+   RArr [RBulk ba; RBulk [49; 48]%N]; RArr [RBulk bb]; RBulk [49; 48]%N; RArr [RBulk bb; RBulk ba]].
 Proof. vm_compute. reflexivity. Qed.
